@@ -66,7 +66,8 @@ macro_rules! run_map {
             .map_postfix(|a: Value, op: Pair<'_, u8>| json!({"t": "post", "k": op.as_rule(), "p": pos(&op), "a": a}))
             .map_infix(|a: Value, op: Pair<'_, u8>, b: Value| json!({"t": "in", "k": op.as_rule(), "p": pos(&op), "a": a, "b": b}));
         let first = m.parse($pairs.clone());
-        let second = m.parse($pairs);
+        // the second time through an iterator adaptor whose size_hint is inexact (the usual `pairs.filter(..)`)
+        let second = m.parse($pairs.filter(|_| true));
         if first == second {
             second
         } else {
